@@ -11,12 +11,6 @@ set_option linter.unusedSimpArgs false
 namespace Grol.Parser
 open Grol.Generated Grol.Printer
 
-/-- token kinds whose literal a node can print last -/
-def lastKind (t : TokType) : Bool :=
-  t = .IDENT || t = .DOTDOT || t = .INT || t = .FLOAT || t = .TRUE || t = .FALSE || t = .BREAK || t = .CONTINUE
-  || t = .LINECOMMENT || t = .BLOCKCOMMENT || t = .RETURN || t = .COLON || t = .INCR || t = .DECR
-  || lookup infixRegs t == some .parseInfixExpression   -- a binary operator whose right operand is missing
-
 /-- lexer fact: tokens of these kinds have a non-empty literal that does not end in a newline -/
 def LitFact (s : TokStream) : Prop := ∀ i, lastKind (s.get i).type = true → litOK (s.get i).tk = true
 
@@ -45,9 +39,8 @@ theorem tblKinds :
     (∀ t, lookup prefixRegs t = some .parseFloatLiteral → lastKind t = true) ∧
     (∀ t, lookup prefixRegs t = some .parseBoolean → lastKind t = true) ∧
     (∀ t, lookup prefixRegs t = some .parseControlExpression → lastKind t = true) ∧
-    (∀ t, lookup prefixRegs t = some .parseComment → lastKind t = true) ∧
     (∀ t, (lookup postfixRegs t).isSome = true → lastKind t = true) := by
-  refine ⟨?_, ?_, ?_, ?_, ?_, ?_, ?_⟩ <;> (intro t; cases t <;> decide)
+  refine ⟨?_, ?_, ?_, ?_, ?_, ?_⟩ <;> (intro t; cases t <;> decide)
 
 theorem peekError_inv (t : TokType) (st : PState) (hi : Inv s st) : wp (peekError s t) (fun _ st' => Inv s st') st := by
   unfold peekError; wvc; apply errorLine_wp; split
@@ -71,7 +64,7 @@ theorem parseIdentifier_end (H : LitFact s) (st : PState) (hi : Inv s st) (hk : 
   | some fn =>
     cases fn
     wvc
-    exact ⟨inv_adv hi, by simpa [endOKO, endOK] using peekLit H hi (tblKinds.2.2.2.2.2.2 _ (by simp [hl]))⟩
+    exact ⟨inv_adv hi, by simpa [endOKO, endOK] using peekLit H hi (tblKinds.2.2.2.2.2 _ (by simp [hl]))⟩
 
 theorem parseFloatLiteral_end (H : LitFact s) (st : PState) (hi : Inv s st) (hk : lastKind st.cur.type = true) :
     wp (parseFloatLiteral s) (PostN s) st := by
@@ -98,17 +91,42 @@ theorem parseControlExpression_end (H : LitFact s) (st : PState) (hi : Inv s st)
 theorem parseStringLiteral_end (st : PState) (hi : Inv s st) : wp parseStringLiteral (PostN s) st := by
   unfold parseStringLiteral; wvc; exact ⟨hi, rfl⟩
 
-theorem parseComment_end (H : LitFact s) (st : PState) (hi : Inv s st) (hk : lastKind st.cur.type = true) :
-    wp parseComment (PostN s) st := by
+theorem litOK_of_endWith (t : Tk) (h : bytesEndWith t.lit [42, 47] = true) : litOK t = true := by
+  unfold bytesEndWith at h
+  unfold litOK
+  have hr : ∃ x, t.lit.reverse = 47 :: 42 :: x := by
+    cases hrev : t.lit.reverse with
+    | nil => rw [hrev] at h; simp [List.isPrefixOf] at h
+    | cons a as =>
+      cases as with
+      | nil => rw [hrev] at h; simp [List.isPrefixOf] at h
+      | cons b bs =>
+        rw [hrev] at h
+        simp [List.isPrefixOf] at h
+        exact ⟨bs, by rw [h.1, h.2]⟩
+  obtain ⟨x, hx⟩ := hr
+  have h1 : t.lit ≠ [] := by intro e; rw [e] at hx; simp at hx
+  have h2 : t.lit.getLast? = some 47 := by
+    have := congrArg List.head? hx
+    simpa [List.head?_reverse] using this
+  simp [h1, h2]
+
+theorem parseComment_end (H : LitFact s) (st : PState) (hi : Inv s st)
+    (hk : st.cur.type = .LINECOMMENT ∨ st.cur.type = .BLOCKCOMMENT) : wp parseComment (PostN s) st := by
   unfold parseComment
   wvc
   split
   · split
     · wvc; exact ⟨inv_setCont hi, rfl⟩
-    · exact ⟨hi, by simpa [endOKO, endOK] using curLit H hi hk⟩
-  · split
+    · rename_i hb hc
+      simp only [Bool.not_eq_true, Bool.not_eq_false] at hc
+      exact ⟨hi, by simpa [endOKO, endOK] using litOK_of_endWith st.cur.tk (by simpa [Tok.tk] using hc)⟩
+  · rename_i hb
+    have hl : st.cur.type = .LINECOMMENT := by rcases hk with h | h; exact h; exact absurd h hb
+    have := curLit H hi (by rw [hl]; decide)
+    split
     · trivial
-    · exact ⟨hi, by simpa [endOKO, endOK] using curLit H hi hk⟩
+    · exact ⟨hi, by simpa [endOKO, endOK] using this⟩
 
 theorem mapPairError_end (st : PState) (hi : Inv s st) : wp (mapPairError s) (PostN s) st := by
   unfold mapPairError
@@ -249,7 +267,7 @@ theorem estep_pPre (H : LitFact s) {n : Nat} (ih : AllEnd s n) (fn : PrefixFn) (
   | parseBuiltin => exact ih.pBi st hi
   | parseArrayLiteral => exact ih.pArr st hi
   | parseMapLiteral => exact ih.pMap st hi
-  | parseComment => exact parseComment_end H st hi (tblKinds.2.2.2.2.2.1 _ hl)
+  | parseComment => exact parseComment_end H st hi (parseComment_regs _ hl)
   | parseMacroLiteral => exact ih.pMac st hi
 
 theorem estep_pInf (H : LitFact s) {n : Nat} (ih : AllEnd s n) (fn : InfixFn) (left : ONode) (st : PState) (hi : Inv s st)
@@ -658,3 +676,24 @@ theorem parseProgram_endOK (s : TokStream) (H : LitFact s) (fuel : Nat) (r : Par
 
 end Grol.Parser
 
+
+namespace Grol.Parser
+open Grol.Generated Grol.Printer
+
+/-- the executable check decides the lexer fact -/
+theorem litFact_of_b {s : TokStream} (h : litFactB s = true) : LitFact s := by
+  intro i hk
+  unfold litFactB at h
+  rw [List.all_eq_true] at h
+  have key : ∀ j, j ≤ s.toks.length → lastKind (s.get j).type = true → litOK (s.get j).tk = true := by
+    intro j hj hkj
+    have := h j (List.mem_range.mpr (by omega))
+    unfold tokLitB at this
+    simpa [hkj] using this
+  by_cases hi : i ≤ s.toks.length
+  · exact key i hi hk
+  · have e : s.get i = s.get s.toks.length := by rw [get_of_le s (by omega), get_of_le s (Nat.le_refl _)]
+    rw [e] at hk ⊢
+    exact key _ (Nat.le_refl _) hk
+
+end Grol.Parser
